@@ -328,6 +328,8 @@ impl Node {
                         handle.send(Message::Regular { from: None, body }).await?;
                     } else {
                         let pid_str = format!("{}.{}.{}", pid.id, pid.serial, pid.creation);
+                        #[cfg(edp_rs_verif)]
+                        edp_client::verif_hooks::yield_point("route:before_pending_remove").await;
                         if let Some((_key, sender)) = pending_rpcs.remove(&pid_str) {
                             let _ = sender.send(body);
                         }
@@ -593,6 +595,12 @@ impl Node {
         &self.cookie
     }
 
+    /// Number of outstanding remote calls (verification builds only).
+    #[cfg(edp_rs_verif)]
+    pub fn pending_rpc_count(&self) -> usize {
+        self.pending_rpcs.len()
+    }
+
     pub async fn rpc_call(
         &self,
         remote_node: &str,
@@ -658,7 +666,11 @@ impl Node {
             "{}.{}.{}",
             reply_to_pid.id, reply_to_pid.serial, reply_to_pid.creation
         );
+        #[cfg(edp_rs_verif)]
+        edp_client::verif_hooks::yield_point("rpc:before_insert").await;
         self.pending_rpcs.insert(pid_str.clone(), tx);
+        #[cfg(edp_rs_verif)]
+        edp_client::verif_hooks::yield_point("rpc:after_insert").await;
 
         tracing::debug!("RPC call_request: {:?}", call_request);
         tracing::debug!("RPC reply_to_pid: {:?}", reply_to_pid);
@@ -666,11 +678,15 @@ impl Node {
         tracing::trace!("Looking up connection for node: {}", remote_node);
         if let Some(conn) = self.connections.get(remote_node) {
             tracing::trace!("Found connection, sending to rex");
+            #[cfg(edp_rs_verif)]
+            edp_client::verif_hooks::yield_point("rpc:before_lock").await;
             let mut conn_guard = conn.lock().await;
             conn_guard
                 .send_to_name(reply_to_pid, Atom::new("rex"), call_request)
                 .await?;
             tracing::trace!("Message sent to rex");
+            #[cfg(edp_rs_verif)]
+            edp_client::verif_hooks::yield_point("rpc:after_send").await;
         } else {
             tracing::error!("No connection found for node: {}", remote_node);
             self.pending_rpcs.remove(&pid_str);
@@ -680,6 +696,8 @@ impl Node {
         let response = tokio::time::timeout(timeout, rx).await;
 
         if response.is_err() {
+            #[cfg(edp_rs_verif)]
+            edp_client::verif_hooks::yield_point("rpc:timed_out").await;
             self.pending_rpcs.remove(&pid_str);
         }
 
